@@ -10,6 +10,13 @@ from mc import explore, hw_harness as H
 
 ID = "C24"
 LEVEL = "fault_enumeration"
+META = dict(
+    technique="explicit-state BFS over fault histories on the real ErrorRecoveryDecorator",
+    text="Every history of read/write successes and failures, timeouts and reconnect outcomes up to the depth bound is "
+         "applied to the real decorator over a scripted fake; after every transition the fake's write log and memory are "
+         "compared with the commanded values. Exhaustive within the bound, which is what the property's quantifier asks for.",
+    note="Fake hardware fails whole calls (no torn batches); timeouts scaled to 10 s / 100 s; values are fresh increasing floats.",
+)
 
 
 def check_record(rec) -> list[tuple[str, str]]:
